@@ -3,6 +3,7 @@ import Verif.Drv.Engine
 import Verif.Drv.Config
 import Verif.Drv.Lines
 import Verif.Drv.FileScan
+import Verif.Drv.FixSched
 
 /-- model name → request handler (one request line in, one answer line out). -/
 def models : List (String × (String → String)) :=
@@ -10,7 +11,8 @@ def models : List (String × (String → String)) :=
    ("engine", Verif.Drv.Engine.step),
    ("config", Verif.Drv.Config.step),
    ("lines", Verif.Drv.Lines.step),
-   ("filescan", Verif.Drv.FileScan.step)]
+   ("filescan", Verif.Drv.FileScan.step),
+   ("fixsched", Verif.Drv.FixSched.step)]
 
 partial def loop (h : IO.FS.Stream) (out : IO.FS.Stream) (f : String → String) : IO Unit := do
   let line ← h.getLine
